@@ -25,6 +25,7 @@ pub fn gen_case(profile: &str, rng: &mut Rng, out: &mut String) -> bool {
         "C14T" => super::c14t::gen_case(rng, out),
         "C15" => super::c15::gen_case(rng, out),
         "C16" => super::c16::gen_case(rng, out),
+        "C16T" => super::c16t::gen_case(rng, out),
         "C17" => super::c17::gen_case(rng, out),
         "C18" => super::c18::gen_case(rng, out),
         "C19" => super::c19::gen_case(rng, out),
